@@ -7,7 +7,9 @@ Stage C  correspondence, for every class with a descriptor: the real unpack()/pa
          model's parseAt/build/sizeOf/buildInto (driver command `layrt`) on valid encodings, byte-wise mutations
          of the fixed part, at offsets 0,1,3,8 with random prefix/suffix; every attribute compared through the
          descriptor's attribute table (floats bit-exact).
-Stage D  oracle = the property itself on the real code, for ALL classes (descriptor or not): tools/c01_oracle.py.
+Stage D  oracle = the property itself on the real code, for ALL classes (descriptor or not): tools/c01_oracle.py
+         (every pack()/unpack() call form, MessageHeader.pack(payload=) for every class; integer fields enumerated as
+         bit sets at the offsets int_fields() reads from the descriptors).
          + the float-codec hypotheses of the theorems tested directly on the implementation (all 65 536 raw values
          of every 16-bit scaled field, Timestamp on a grid, three cycles).
 """
@@ -238,7 +240,7 @@ def correspond(ctx, layouts):
     for name in names:
         subj = subs[name]
         srng = O.random.Random(zlib.crc32(name.encode()) + 77 * ctx.seed)
-        encs = O.encodings(subj, srng, ctx.thorough, budget)
+        encs = O.encodings(subj, srng, ctx.thorough, budget, int_fields(layouts[name]))
         if len(encs) > budget * 2:
             head = encs[:budget]
             tail = encs[budget:]
@@ -390,6 +392,47 @@ def scaled_fields(items, base=0):
         else:
             return res
     return res
+
+
+def int_fields(items, base=0):
+    """(byte offset, width, codec kind) of the integer-valued fields (plain unsigned / signed, enumerations, booleans)
+    at static offsets of a layout: everything before the first variable-length item.  Feeds the oracle's generator
+    (fields as bit sets / boundary values, O.field_sweeps); the oracle itself does not depend on the descriptor."""
+    res = []
+    off = base
+    for it in items:
+        k = it['k']
+        if k == 'field':
+            c = it['codec'][0]
+            if c in ('uint', 'sint', 'lenient', 'strict', 'bool'):
+                res.append((off, it['w'], 'uint' if c == 'uint' else c))
+            off += it['w']
+        elif k == 'count':
+            off += it['w']
+        elif k == 'pad':
+            off += it['n']
+        elif k == 'struct':
+            s = X.static_size(it['items'])
+            res += int_fields(it['items'], off)
+            if s is None:
+                return res
+            off += s
+        elif k == 'array' and it['cnt'][0] == 'fixed':
+            s = X.static_size(it['items'])
+            if s is None:
+                return res + int_fields(it['items'], off)
+            for i in range(it['cnt'][1]):
+                res += int_fields(it['items'], off + i * s)
+            off += s * it['cnt'][1]
+        elif k == 'bytes' and it['cnt'][0] == 'fixed':
+            off += it['cnt'][1]
+        else:
+            return res
+    return res
+
+
+def field_table(layouts):
+    return {n: int_fields(items) for n, items in (layouts or {}).items()}
 
 
 def sweep_work(args):
@@ -553,7 +596,9 @@ def oracle(ctx, pool, budget):
     ctx.cov['oracle_subjects'] = len(names)
     tot = {'cases': 0, 'parsed': 0, 'unparsed': 0, 'refused': 0, 'ok': 0, 'normalised': 0}
     per = {}
-    for r in pool.imap_unordered(O.run_subject, [(n, ctx.seed, ctx.thorough, budget) for n in names]):
+    ft = field_table(getattr(ctx, '_c01_layouts', None))
+    ctx.cov['oracle_integer_fields_enumerated'] = sum(len(v) for v in ft.values())
+    for r in pool.imap_unordered(O.run_subject, [(n, ctx.seed, ctx.thorough, budget, ft.get(n)) for n in names]):
         if r.get('infra'):
             raise fv.InfraError(r['infra'])
         for k in tot:
@@ -606,7 +651,16 @@ def check(ctx):
         'ConfigType / InterfaceConfigType / FaultType sub-payload) b0 ranges over struct-built valid encodings (variable parts of '
         'every length 0..N and the maximum; timestamps invalid / 0 / 1 ns / boundary / random / GPS era / ns >= 1e9), each byte of the '
         'fixed part set to boundary values one at a time, random multi-byte mutations, wholly random fixed parts; each b0 at offsets '
-        'from {0,1,3,8} with random prefix and suffix, pack() vs pack(buffer, off, return_buffer=False|True). A case is non-trivial if '
+        'from {0,1,3,8} with random prefix and suffix. Integer fields at static offsets (from the descriptor) as bit sets: every base '
+        '(every variable-part shape / sub-payload type) x every plain unsigned field x all combinations of its two low bits; first bases x '
+        'every integer field x {all 4-low-bit combinations, single bits, top bit + low bits, complements} (all 256 values / every bit of '
+        'wider fields in thorough). Call forms, each required to give the bytes of pack() with all guard bytes untouched and the promised '
+        'return value: library-allocated pack() / (return_buffer=) / (None, 0|5) / (buffer=None); caller-supplied bytearray and memoryview, '
+        'positional and keyword, return_buffer False / True / default at offsets {0,1,3,8,24,57,size+2} with guard bytes before and after; '
+        'unpack from bytes / bytearray / memoryview / keywords / message_version= (same value and count, input unmodified); '
+        'MessageHeader.pack(payload=p) = header + payload in one call in the same forms, for parsed headers with payloads of several '
+        'lengths and for the serialisation of every registered payload class, read back with validate_sync / validate_crc and the class\'s '
+        'unpack at off+24. len(pack(o1)) <= bytes consumed by the parse that gave o1. A case is non-trivial if '
         'b0 parses; distinct = distinct (subject, b0). correspondence: the same generator, impl vs Lean model via `layrt`.')
     ctx.assumptions += [
         'float-arithmetic value codecs (Timestamp sec+ns <-> float seconds, FixedPointAdapter, sentinel scalings in solution.py) are '
